@@ -266,7 +266,7 @@ Lemma leaf_finish_spec nm l d x pth attrs st pp nn diff st' r :
              (forall a, In a (pp ++ nn) -> ~ In a (map fst (phys_reqd st))) /\
              io_clocks st' = io_clocks st ++ clock_of v /\
              lv_port v = mkPort pth diff pp nn (l_inv l) (out_dir (l_dir l)) attrs /\ lv_clock v = l_clock l
-  | inl e => opts_ok d x -> e = EResource
+  | inl e => opts_ok d x -> e = EResource RConflict
   end.
 Proof.
   unfold leaf_finish. intros H.
@@ -312,7 +312,7 @@ Lemma resolve_leaf_spec fuel cm nm l d x pth attrs st st' r :
              (forall a, In a (port_pins (lv_port v)) -> ~ In a (map fst (phys_reqd st))) /\
              io_clocks st' = io_clocks st ++ clock_of v /\
              leaf_matches fuel cm pth attrs l v
-  | inl e => opts_ok d x -> leaf_resolves fuel cm l -> e = EResource
+  | inl e => opts_ok d x -> leaf_resolves fuel cm l -> e = EResource RConflict
   end.
 Proof.
   unfold resolve_leaf, leaf_resolves, leaf_matches. intros H.
@@ -496,7 +496,7 @@ Lemma run_jobs_spec fuel cm : forall js st st' r, run_jobs fuel cm js st = (st',
               io_clocks st' = io_clocks st ++ concat (map clock_of vs) /\
               Forall2 (fun j v => leaf_matches fuel cm (j_path j) (j_attrs j) (j_leaf j) v) js vs
   | inl e => Forall (fun j => opts_ok (j_d j) (j_x j)) js ->
-             Forall (fun j => leaf_resolves fuel cm (j_leaf j)) js -> e = EResource
+             Forall (fun j => leaf_resolves fuel cm (j_leaf j)) js -> e = EResource RConflict
   end.
 Proof.
   induction js as [|j js IH]; intros st st' r H; cbn [run_jobs] in H.
@@ -614,7 +614,9 @@ Proof.
     eapply Forall2_Forall_r; [exact L2|]. auto.
 Qed.
 
-Lemma request_again t cm st q : In (q_key q) (requested st) -> request t cm st q = (st, Error EResource).
+Lemma request_again t cm st q : In (q_key q) (requested st) ->
+  request t cm st q =
+  (st, Error (EResource (match tbl_lookup t (q_key q) with Some _ => RAgain | None => RNoSuch end))).
 Proof.
   intros Hin. unfold request. destruct (tbl_lookup t (q_key q)); [|reflexivity].
   apply key_mem_In in Hin. rewrite Hin. reflexivity.
@@ -655,7 +657,7 @@ Lemma request_refusal_kind t cm st q res d x st' e :
   merge_options res (q_dir q) (q_xdr q) = inr (d, x) ->
   Forall (fun j => opts_ok (j_d j) (j_x j)) (flatten res d x (root_path q) (node_attrs res)) ->
   Forall (leaf_resolves (cm_fuel cm) cm) (leaves_of res) ->
-  request t cm st q = (st', Error e) -> e = EResource.
+  request t cm st q = (st', Error e) -> e = EResource RConflict.
 Proof.
   intros Hl Hk Hm Ho Hr. unfold request. rewrite Hl, Hk, Hm.
   destruct (resolve (cm_fuel cm) cm res d x (q_key q, []) (node_attrs res) st) as [s1 [e1|v1]] eqn:E;
@@ -884,7 +886,7 @@ Lemma request_dash_refusal t cm st q res st' e :
   tbl_lookup t (q_key q) = Some res -> key_mem (q_key q) (requested st) = false ->
   wf_node res -> q_dir q = DDash -> q_xdr q = XNone ->
   Forall (leaf_resolves (cm_fuel cm) cm) (leaves_of res) ->
-  request t cm st q = (st', Error e) -> e = EResource.
+  request t cm st q = (st', Error e) -> e = EResource RConflict.
 Proof.
   intros Hl Hk Hwf Hd Hx Hr H. destruct (merge_dash res Hwf) as (d' & x' & Hm & Hds).
   eapply (request_refusal_kind t cm st q res d' x' st' e); eauto.
